@@ -68,9 +68,9 @@ def parts_for(pid, tier, only):
         from e1 import fam_misc as f
         from e2.driver import e2_run
         from e2.lemmas import c08
-        P.append(e1_part(pid, tier, f.c08_kernels(), ["bitmodel", "ops_c04", "ops_c05", "ops_misc"],
-                         ["bit kernels and Bitstr range arithmetic with full-width symbolic usize arguments on fixed small values"], "values <= 3 bytes",
-                         ["bitstr::{cut_bits, bit_mask, upper_bound_index}", "Bitstr::{read, peek, split_at, seek, substr, to_int, to_uint}", "fmt_flags::FmtFlags"], only))
+        P.append(e1_part(pid, tier, f.c08_kernels() + f.c12_index(), ["bitmodel", "ops_c04", "ops_c05", "ops_misc"],
+                         ["bit kernels and Bitstr range arithmetic with full-width symbolic usize arguments on fixed small values; the index helpers of nth / slice for every isize index"], "values <= 3 bytes; len <= 2^40",
+                         ["bitstr::{cut_bits, bit_mask, upper_bound_index}", "Bitstr::{read, peek, split_at, seek, substr, to_int, to_uint}", "fmt_flags::FmtFlags", "state::{relative_index, slicing_index}"], only))
         c08.TIER = tier
         P.append(e2_run(pid, tier, [c08], only=only, flavours=("on",) if tier == "quick" else ("on", "off"),
                         assumptions=["per-word panic freedom: every non-immediate native word the executor can run, from an arbitrary state whose top three cells are arbitrary (any variant, tagged or not, full-width payloads), in both overflow-check flavours",
